@@ -23,8 +23,8 @@
   bytes of the argument by value when the argument is not the object itself (an operation
   on variable `v` cannot change the memory of another variable, so the moment of reading
   does not matter); the alias cases `a = a`, `a.append(a)`, `a.prepend(a)` have dedicated
-  functions (`assignSelf`, `appendSelf`, `prependSelf`, and `prependSub` for
-  `a.prepend((const byte*)a + off, len)`) that follow the same C++ text with
+  functions (`assignSelf`, `appendSelf`, `prependSelf`, and `prependSub`/`appendSub`/`assignSub` for
+  `a.prepend((const byte*)a + off, len)` etc.) that follow the same C++ text with
   the source pointer pointing into the object's own memory.
 
   Allocation ledger: every `new char[n]` takes a fresh block id from the `Ledger` and adds it
@@ -391,6 +391,61 @@ def Buf.appendSelf (b : Buf) (k : Nat) : M Buf := do
     Buf.termIfOwning { b with store := st }
   else fault
 
+/-- `a.append((const byte*)a + off, len)` with `off + len ≤ a.size()`: the data is a sub-range of the object's
+    own window.  `append` remembers the offset of such a pointer (`buffer && bufferStart <= data && data <=
+    bufferEnd`) and re-derives it after `resize`, which may have moved or reallocated the bytes -/
+def Buf.appendSub (b : Buf) (off len : Nat) (k : Nat) : M Buf := do
+  let size := len
+  let inside := b.owning = true ∧ b.s ≤ b.s + off ∧ b.s + off ≤ b.e
+  let b' ← b.resize (b.e - b.s + size) k
+  let dst ← liftO (ptrSub b'.e size)
+  if inside then do
+    -- `data = bufferStart + offset`
+    let d ← b'.store.load (b'.s + off) size
+    if noOverlap dst (b'.s + off) size then do
+      let st ← b'.store.write dst d
+      Buf.termIfOwning { b' with store := st }
+    else fault
+  else do
+    -- `data` still points into the attached range (or at the capacity cell), which `resize` does not touch
+    let d ← b.store.load (b.s + off) size
+    let st ← b'.store.write dst d
+    Buf.termIfOwning { b' with store := st }
+
+/-- `a.assign((const byte*)a + off, len)` with `off + len ≤ a.size()`; `assign` copies with `Memory::move` -/
+def Buf.assignSub (b : Buf) (off len : Nat) (k : Nat) : M Buf :=
+  let size := len
+  let src := b.s + off
+  if size > b.cap then do
+    b.store.release
+    let cap := newCap size k
+    let st ← newBlock (cap + 1)
+    let d ← b.store.load src size     -- `data` still points into the old block / the attached range
+    let st ← st.write 0 d
+    let st ← st.write size [some 0]
+    pure { store := st, s := 0, e := size, cap := cap }
+  else
+    match b.store with
+    | .own _ _ => do
+      let d ← b.store.load src size
+      let st ← b.store.write 0 d       -- `Memory::move` (overlap allowed)
+      let st ← st.write size [some 0]
+      pure { b with store := st, s := 0, e := size }
+    | _ => pure { b with e := b.s }
+
+/-- the op lines `appendsub` / `assignsub v off len` clamp the sub-range to the window like `prependsub` -/
+def Buf.appendSubClamped (b : Buf) (off len : Nat) (k : Nat) : M Buf :=
+  let size := b.e - b.s
+  let off' := if off < size then off else size
+  let len' := if len < size - off' then len else size - off'
+  b.appendSub off' len' k
+
+def Buf.assignSubClamped (b : Buf) (off len : Nat) (k : Nat) : M Buf :=
+  let size := b.e - b.s
+  let off' := if off < size then off else size
+  let len' := if len < size - off' then len else size - off'
+  b.assignSub off' len' k
+
 /-- `bufferStart = bufferEnd = buffer ? buffer : (byte*)&_capacity` -/
 def Buf.home (self : Nat) (b : Buf) : Buf :=
   match b.store with
@@ -492,6 +547,8 @@ inductive Op where
   | prependData (v : Nat) (d : List Nat)
   | prependBuf (v w : Nat)
   | prependSub (v off len : Nat)
+  | appendSub (v off len : Nat)
+  | assignSub (v off len : Nat)
   | appendData (v : Nat) (d : List Nat)
   | appendBuf (v w : Nat)
   | resize (v n : Nat)
@@ -528,6 +585,8 @@ def step (st : State) (k : Nat) : Op → Option State
   | .prependData v d => st.upd v (fun b => b.prepend (bytesOf d) k)
   | .prependBuf v w => if v = w then st.upd v (fun b => b.prependSelf k) else st.updFrom v w (fun b d => b.prepend d k)
   | .prependSub v off len => st.upd v (fun b => b.prependSubClamped off len k)
+  | .appendSub v off len => st.upd v (fun b => b.appendSubClamped off len k)
+  | .assignSub v off len => st.upd v (fun b => b.assignSubClamped off len k)
   | .appendData v d => st.upd v (fun b => b.append (bytesOf d) k)
   | .appendBuf v w => if v = w then st.upd v (fun b => b.appendSelf k) else st.updFrom v w (fun b d => b.append d k)
   | .resize v n => st.upd v (fun b => b.resize n k)
